@@ -679,6 +679,63 @@ class ClsArg(Atom):
         return {"class"}
 
 
+class StructArg(Atom):
+    """struct argument: Pt x / const Pt *x / Pt *x +intent(inout|out) / Pt &x / const Pt &x.
+    The library logs both fields; inout flips both, out sets both."""
+
+    py = False  # the numpy-free Python subset has no struct arguments
+    lua = False
+    FORMS = {"val": "Pt %s", "cptr": "const Pt *%s", "ptr_inout": "Pt *%s", "ptr_out": "Pt *%s", "ref_inout": "Pt &%s", "cref": "const Pt &%s"}
+
+    def __init__(self, form):
+        Atom.__init__(self, "struct_" + form)
+        self.form = form
+        self.intent = "inout" if form.endswith("inout") else ("out" if form.endswith("out") else "in")
+        if "ref" in form:
+            self.langs = ("cxx",)
+
+    def decl(self, n):
+        d = self.FORMS[self.form] % n
+        if self.intent != "in":
+            d += " +intent(%s)" % self.intent
+        return [d]
+
+    def cparams(self, n, lang):
+        d = self.FORMS[self.form] % n
+        return [d]
+
+    def body(self, n, lang):
+        acc = "%s->" % n if "ptr" in self.form else "%s." % n
+        log, post = [], []
+        ti, td = NATIVE["int"], NATIVE["double"]
+        if self.intent != "out":
+            log = ['vt_txt(" %s.i=");' % n, cfmt(ti, acc + "i"), 'vt_txt(" %s.d=");' % n, cfmt(td, acc + "d")]
+        if self.intent == "inout":
+            post = ["%si = %si ^ 5;" % (acc, acc), "%sd = -(%sd);" % (acc, acc)]
+        elif self.intent == "out":
+            post = ["%si = %s;" % (acc, clit(ti, outval(ti))), "%sd = %s;" % (acc, clit(td, outval(td)))]
+        return log, post
+
+    def values(self):
+        return [(9, 1.5), (-2147483647 - 1, -0.0)] if self.intent != "out" else [None]
+
+    def recv(self, n, v):
+        if self.intent == "out":
+            return ""
+        return " %s.i=%s %s.d=%s" % (n, rnd(NATIVE["int"], v[0]), n, rnd(NATIVE["double"], v[1]))
+
+    def observe(self, v):
+        ti, td = NATIVE["int"], NATIVE["double"]
+        if self.intent == "inout":
+            return [rnd(ti, flip(ti, v[0])), rnd(td, flip(td, v[1]))]
+        if self.intent == "out":
+            return [rnd(ti, outval(ti)), rnd(td, outval(td))]
+        return []
+
+    def needs(self):
+        return {"struct"}
+
+
 def values_of(atom):
     return atom._vals if atom._vals is not None else atom.values()
 
@@ -928,6 +985,34 @@ class EnumRes(Res):
         return {"enum"}
 
 
+class StructRes(Res):
+    """Pt f() by value / Pt *f() pointer to a library-owned struct"""
+
+    py = False
+    lua = False
+
+    def __init__(self, form):
+        Res.__init__(self, "ret_struct_" + form)
+        self.form = form
+
+    def rtype(self, lang):
+        return "Pt" if self.form == "val" else "Pt *"
+
+    def statics(self, lang):
+        return ["static Pt vt_pt_%s = { 77, 2.5 };" % self.form] if self.form == "ptr" else []
+
+    def ret(self, lang):
+        if self.form == "val":
+            return ["{ Pt r; r.i = 77; r.d = 2.5; return r; }"]
+        return ["return &vt_pt_ptr;"]
+
+    def observe(self, extra=None):
+        return [rnd(NATIVE["int"], 77), rnd(NATIVE["double"], 2.5)]
+
+    def needs(self):
+        return {"struct"}
+
+
 # ---------------------------------------------------------------- functions and libraries
 class Func(object):
     """One wrapped function: a result atom, argument atoms, optional trailing defaults."""
@@ -1002,6 +1087,7 @@ class Func(object):
 
 
 ENUM_DECL = "enum Color { RED, GREEN = 3, BLUE }"
+STRUCT_DECL = "struct Pt { int i; double d; }"
 CLASS_HPP = """
 class Cls {
     int m_id;
@@ -1036,6 +1122,8 @@ class Library(object):
             decls.append({"decl": ENUM_DECL})
         if "class" in self.needs():
             decls.append(dict(CLASS_YAML))
+        if "struct" in self.needs():
+            decls.append({"decl": STRUCT_DECL + ";"})
         for f in self.funcs:
             e = {"decl": f.decl()}
             decls.append(e)
@@ -1054,6 +1142,10 @@ class Library(object):
             out.append(ENUM_DECL + ";")
         if "class" in self.needs():
             out.append(CLASS_HPP)
+        if "struct" in self.needs():
+            out.append(STRUCT_DECL + ";")
+            if lang == "c":
+                out.append("typedef struct Pt Pt;")
         for f in self.funcs:
             out.append(f.cproto(lang, with_defaults=True) + ";")
         out.append("#endif")
@@ -1090,6 +1182,7 @@ def core_args(level=1):
     for t in ("int", "double"):
         A += [Vec(T[t], "in"), Vec(T[t], "out"), Vec(T[t], "inout"), Vec(T[t], "alloc")]
     A += [EnumVal(), ClsArg("ptr"), ClsArg("cref")]
+    A += [StructArg(f) for f in ("val", "cptr", "ptr_inout", "ptr_out", "ref_inout", "cref")]
     return A
 
 
@@ -1104,5 +1197,5 @@ def core_results(level=1):
     R += [StrRes("val", "result"), StrRes("val", ""), StrRes("cref", "refres"), StrRes("cptr_caller", "owned"), StrRes("cptr_library", "lib")]
     for t in ("int", "double"):
         R += [PtrRes(T[t]), PtrRes(T[t], ref=True), ArrRes(T[t]), ArrRes(T[t], "allocatable"), VecRes(T[t])]
-    R += [EnumRes()]
+    R += [EnumRes(), StructRes("val"), StructRes("ptr")]
     return R
